@@ -212,9 +212,12 @@ def run_case(ctx, rng, case_policy='lower', layout='canonical'):
     pop_desc = (tuple(sorted((k, tuple(sorted(bound.shadow.rows[h].items(), key=repr))) for h, k in bound.shadow.kind.items())),
                 tuple(map(tuple, bound.shadow.pairs)))
     try:
-        with cpu_budget(30):
+        # (the reference ran the program while generating it: its loops are short, interpretation takes
+        # milliseconds; ten CPU seconds is three orders of magnitude above that)
+        with cpu_budget(10):
             got_ret = interpret.run_function(m, 'generated', text, {})
     except BudgetExceeded as e:
+        NON_TERMINATION[0] += 1
         raise Mismatch('interpreter/non-termination', '%s\n%s' % (e, text))
     except Exception as e:
         import traceback
@@ -248,6 +251,9 @@ def run_case(ctx, rng, case_policy='lower', layout='canonical'):
     return text
 
 
+NON_TERMINATION = [0]
+
+
 def run(ctx):
     rng = ctx.rng
     if ctx.params.get('replay'):
@@ -258,3 +264,7 @@ def run(ctx):
             run_case(ctx, rng)
         except Mismatch as e:
             ctx.violation(e.key, e.what, case=dict(text=e.what))
+        if NON_TERMINATION[0] >= 5:
+            # every further program that does not end costs another budget; five reports say what there is to say
+            ctx.count('shard_stopped_after_five_programs_that_did_not_end')
+            break
